@@ -11,12 +11,14 @@ milliseconds): every float comparison of the timer task is then exact.
 
 Event list handed to the model (Sx syntax of Fix/TimerRun.v), times in ms:
     [0, t]                 one iteration of heartbeat_timer_task at time t
-    [1, t, kind, rid]      inbound valid in-sequence message: kind 0 Heartbeat, 1 TestRequest, 2 application
-                           rid = [] (no tag 112) | [text]
+    [1, t, kind, rid, d]   inbound valid message numbered next_num_in + d (d = 0 in sequence, d > 0 behind a gap):
+                           kind 0 Heartbeat, 1 TestRequest, 2 application; rid = [] (no tag 112) | [text]
+    [1, t, 3, [], d, nw]   inbound SequenceReset-GapFill with NewSeqNo = next_num_in + nw
     [2, t]                 application calls send_test_req()
     [3, t, text]           application calls send_msg(TestRequest(112=text)) directly
-Per event the model answers [outs, [state, connected, mlt_ms, [id]?]] with
-    outs = list of [0, kind, rid] frame written (kind 0 Heartbeat, 1 TestRequest, 5 Logout) | [1] on_disconnect
+Per event the model answers [outs, [state, connected, mlt_ms, [id]?, gap]] (gap = _max_seq_num_resend - next_num_in
+while a resend is awaited, else 0) with
+    outs = list of [0, kind, rid] frame written (kind 0 Heartbeat, 1 TestRequest, 2 ResendRequest, 5 Logout) | [1] on_disconnect
            | [2] the timer task would spin (exception without sleep) | [3] FIXConnectionError raised to the caller."""
 from __future__ import annotations
 
@@ -168,8 +170,10 @@ class Adapter:
         mlt = conn._message_last_time
         ms = mlt * 1000.0
         rid = conn._test_req_id
+        m = conn._max_seq_num_resend
         return [int(conn._connection_state), 1 if (conn._socket_writer and conn._socket_reader) else 0,
-                int(ms) if ms == int(ms) else ["inexact", repr(mlt)], [] if rid is None else [int(rid)]]
+                int(ms) if ms == int(ms) else ["inexact", repr(mlt)], [] if rid is None else [int(rid)],
+                (m - conn._session.next_num_in) if m else 0]
 
     @staticmethod
     def attach(conn, reader, writer):
@@ -208,8 +212,8 @@ def parse_frame(data):
     return d
 
 
-KIND_OF_TYPE = {"0": 0, "1": 1, "5": 5, "A": 10}
-TYPE_OF_KIND = {0: "0", 1: "1", 2: "D"}
+KIND_OF_TYPE = {"0": 0, "1": 1, "2": 2, "5": 5, "A": 10}
+TYPE_OF_KIND = {0: "0", 1: "1", 2: "D", 3: "4"}
 
 
 # ----------------------------------------------------------------------------------------------
@@ -260,6 +264,7 @@ class Driver:
             return await drv._real_sleep(delay, result)
 
         asyncio.sleep = vsleep
+        self.AWAITING = int(ConnectionState.RESENDREQ_AWAITING)
         self.conn = Conn(FIXProtocol44(), "S", "T", Journaler(), "vhost", 0, heartbeat_period=hb)
         self.reader = asyncio.StreamReader(loop=self.loop)
         self.writer = FakeWriter(self.clock, self.reader, self.wire)
@@ -323,8 +328,8 @@ class Driver:
     def start_timer(self):
         self.hb_task = self.loop.create_task(self.conn.heartbeat_timer_task(), name="c12-heartbeat")
 
-    def inject(self, msg_type, pairs):
-        seq = Adapter.next_in(self.conn)
+    def inject(self, msg_type, pairs, d=0):
+        seq = Adapter.next_in(self.conn) + d
         self.reader.feed_data(frame(msg_type, seq, pairs))
         self.settle(hold_timers=True)
 
@@ -352,8 +357,15 @@ class Spin(Exception):
 # ----------------------------------------------------------------------------------------------
 # case = {"hb": int, "phase": ms, "end": ms, "init": "logon" | {"state": n, "mlt": ms (absolute) | 0},
 #         "tie": 0|1 (1: a scripted item at the same instant as a tick goes first),
-#         "script": [[t_rel_ms, "recv", kind, rid|None] | [t_rel_ms, "probe"] | [t_rel_ms, "raw", rid]],
-#         "policy": None | {"delay": ms, "mode": "match"|"wrong"|"missing"|"junk"|"lenient"|"zero", "limit": k|None}}
+#         "script": [[t_rel_ms, "recv", kind, rid|None] | [t_rel_ms, "probe"] | [t_rel_ms, "raw", rid]
+#                    | [t_rel_ms, "lose"]           one peer message is lost on the wire: everything the peer sends from now
+#                                                   on is numbered above what the connection expects (d grows by one per message)
+#                    | [t_rel_ms, "fill", nw|None]  the peer gap-fills: SequenceReset in sequence, NewSeqNo = its next number
+#                                                   (None) or next_num_in + nw
+#                    | [t_rel_ms, "resend", kind, rid|None]  the peer re-sends one missing message in sequence],
+#         "policy": None | {"delay": ms, "mode": "match"|"wrong"|"missing"|"junk"|"lenient"|"zero", "limit": k|None,
+#                           "gap": None | {"at": k, "fill_after": ms|None}}   the k-th answer (1-based) is preceded by a lost
+#                                                   message, the gap is filled fill_after ms after that answer (None: never)}
 # All times relative to T0 = EPOCH*1000 ms and multiples of Q.
 
 T0 = EPOCH * 1000
@@ -398,6 +410,8 @@ def run_impl(case):
             order += 1
         policy = case.get("policy")
         answered = 0
+        ahead = 0                      # peer's next number minus the connection's expected number
+        res["awaiting"] = d.AWAITING
         end = T0 + case["end"]
         start_at = T0 + case["phase"]
         started = False
@@ -414,6 +428,16 @@ def run_impl(case):
                 outs.append(extra)
             return outs
 
+        def deliver(kind, rid, dd, nw=None):
+            if d.conn._socket_reader is None or d.reader.at_eof():
+                return
+            if kind == 3:
+                e_ = Adapter.next_in(d.conn)
+                d.inject("4", [("123", "Y"), ("36", str(e_ + nw))], dd)
+            else:
+                d.inject(TYPE_OF_KIND[kind], ([("112", rid)] if rid is not None else []) +
+                         ([("11", "x")] if kind == 2 else []), dd)
+
         def react(n_wire, now):
             nonlocal order, answered
             if not policy:
@@ -428,8 +452,14 @@ def run_impl(case):
                         n = int(f.get("112", "0"))
                     except ValueError:
                         n = 0
+                    gap = policy.get("gap")
+                    if gap and answered == gap["at"]:
+                        heapq.heappush(heap, (now + policy["delay"], order, ["lose"]))
+                        order += 1
+                        if gap.get("fill_after") is not None:
+                            heapq.heappush(heap, (now + policy["delay"] + gap["fill_after"], order + 1, ["fill", None]))
                     heapq.heappush(heap, (now + policy["delay"], order, ["recv", 0, answer_rid(policy["mode"], n)]))
-                    order += 1
+                    order += 2
 
         while True:
             w = start_at if not started else d.next_timer_ms()
@@ -443,11 +473,29 @@ def run_impl(case):
             try:
                 if take_script:
                     _, _, it = heapq.heappop(heap)
-                    if it[0] == "recv":
-                        ev = [1, int(t), it[1], rid_sx(it[2])]
-                        if d.conn._socket_reader is not None and not d.reader.at_eof():
-                            d.inject(TYPE_OF_KIND[it[1]], ([("112", it[2])] if it[2] is not None else []) +
-                                     ([("11", "x")] if it[1] == 2 else []))
+                    if it[0] == "lose":
+                        ahead += 1
+                        continue
+                    if it[0] == "fill":
+                        nw = ahead if it[1] is None else it[1]
+                        if nw < 1 or nw > ahead:
+                            continue
+                        ev = [1, int(t), 3, [], 0, nw]
+                        deliver(3, None, 0, nw)
+                        ahead -= nw
+                        outs = observe(n_wire, n_disc)
+                    elif it[0] == "resend":
+                        if ahead < 1:
+                            continue
+                        ev = [1, int(t), it[1], rid_sx(it[2]), 0]
+                        deliver(it[1], it[2], 0)
+                        ahead -= 1
+                        outs = observe(n_wire, n_disc)
+                    elif it[0] == "recv":
+                        ev = [1, int(t), it[1], rid_sx(it[2]), ahead]
+                        deliver(it[1], it[2], ahead)
+                        if ahead > 0:
+                            ahead += 1
                         outs = observe(n_wire, n_disc)
                     elif it[0] == "probe":
                         ev = [2, int(t)]
@@ -513,25 +561,29 @@ def oracle(case, res):
     if case.get("init", "logon") != "logon":
         return out                                   # the property speaks about an ACTIVE session
     ACTIVE = res["init"][0]
+    AWAITING = res.get("awaiting", -1)               # a ResendRequest is out: the session is still logged on
     events, rows = res["events"], res["rows"]
     end = T0 + case["end"]
     if rows and [2] in rows[-1][0]:
         return [("the timer task raises on every iteration without sleeping (spins) at t=%d" % events[-1][1], None)]
     # --- timeline -------------------------------------------------------------------------------
-    inbound = []          # (index, t, kind, rid_text)  delivered while connected and ACTIVE
+    inbound = []          # (index, t, kind, rid_text, d)  delivered while connected and logged on (ACTIVE / awaiting a resend);
+                          # d = 0: in sequence = "valid traffic" for the silence clock; d > 0: behind a sequence gap
     probes = []           # dict(i, t, rid, src) every TestRequest frame written
     disc = None           # (index, t, event kind)
     connected, state = res["init"][1], res["init"][0]
     outstanding = []      # rids (text) of TestRequests written and not yet answered
     max_out = (0, None)
     ticks = [e[1] for e in events if e[0] == 0]
+    pre_states = []
     for i, (e, (outs, snap)) in enumerate(zip(events, rows)):
         t = e[1]
-        pre_live = connected and state == ACTIVE
+        pre_live = connected and state in (ACTIVE, AWAITING)
+        pre_states.append(state)
         if e[0] == 1 and pre_live:
             kind, rid = e[2], _txt(e[3])
-            inbound.append((i, t, kind, rid))
-            frames = [o for o in outs if o[0] == 0]
+            inbound.append((i, t, kind, rid, e[4]))
+            frames = [o for o in outs if o[0] == 0 and o[1] != 2]      # the ResendRequest of a gap is C04's business
             if kind == 1:
                 want = rid if rid is not None else "0"
                 hbs = [o for o in frames if o[1] == 0]
@@ -576,8 +628,12 @@ def oracle(case, res):
         out.append(("%d TestRequests outstanding at t=%d: %r" % (max_out[0], t, lst),
                     classify("raw-testrequest-while-pending", facts)))
     disc_t = disc[1] if disc else None
-    refs = [(-1, T0)] + [(i, t) for (i, t, _, _) in inbound]
-    in_times = [t for (_, t, _, _) in inbound]
+    refs = [(-1, T0)] + [(i, t) for (i, t, _, _, _) in inbound]
+    in_times = [t for (_, t, _, _, _) in inbound]                 # anything received
+    seq_times = [t for (_, t, _, _, dd) in inbound if dd == 0]     # in-sequence (finalized) messages only
+
+    def active_throughout(a, b):
+        return all(snap[0] == ACTIVE for (e, (_, snap)) in zip(events, rows) if a <= e[1] <= b)
     timer_on = ticks[0] if ticks else None
 
     def silent(a, b):          # no inbound in (a, b]
@@ -585,7 +641,7 @@ def oracle(case, res):
 
     def answered(p, upto_i=None):
         n = _pyint(p["rid"])
-        for (i, t, kind, rid) in inbound:
+        for (i, t, kind, rid, _dd) in inbound:        # an answer counts whatever its sequence number
             if i > p["i"] and kind == 0 and rid is not None and (upto_i is None or i < upto_i):
                 if rid == p["rid"] or (n is not None and _pyint(rid) == n):
                     return t
@@ -594,7 +650,8 @@ def oracle(case, res):
     if hb >= 1 and timer_on is not None:
         for (ia, a) in refs:
             # --- probe by one interval of silence -------------------------------------------------
-            if a + H <= end and timer_on <= a + H and silent(a, a + H) and (disc_t is None or disc_t > a + H):
+            if (a + H <= end and timer_on <= a + H and silent(a, a + H) and (disc_t is None or disc_t > a + H)
+                    and active_throughout(a, a + H)):
                 ok = False
                 for p in probes:
                     if p["t"] <= a + H:
@@ -611,7 +668,7 @@ def oracle(case, res):
         # --- no probe before hb - 1 s of silence (watchdog-initiated probes only) -------------------
         for p in probes:
             if p["src"] == "tick":
-                last = max([T0] + [t for (i, t, _, _) in inbound if i < p["i"]])
+                last = max([T0] + [t for (i, t, _, _, dd) in inbound if i < p["i"] and dd == 0])
                 if not (p["t"] - last > (hb - 1) * 1000):
                     out.append(("TestRequest at t=%d although the last inbound message was at t=%d (< %d s of silence)"
                                 % (p["t"], last, hb - 1), None))
@@ -621,13 +678,15 @@ def oracle(case, res):
         late = [p for p in probes if p["i"] <= disc[0] and not (
             (answered(p, disc[0]) is not None and answered(p, disc[0]) <= p["t"] + D) or disc_t <= p["t"] + D)]
         L1 = not late
-        gaps_from = [T0] + [t for (i, t, _, _) in inbound if i < disc[0]]
+        gaps_from = [T0] + [t for (i, t, _, _, dd) in inbound if i < disc[0] and dd == 0]
         L2 = all(b - a <= H for a, b in zip(gaps_from, gaps_from[1:] + [disc_t]))
         facts.update(wd_disc=disc_t, answered_all=L1, traffic_continues=L2,
+                     awaiting_at_disc=(pre_states[disc[0]] == AWAITING), since_last_in_sequence=disc_t - gaps_from[-1],
                      never_answered=[p for p in late if answered(p, disc[0]) is None],
                      overdue=[p for p in late if disc_t > p["t"] + D])
         if L1 or L2:
-            cls = classify("hb0-immediate-disconnect", facts) or classify("unanswered-probe-while-traffic-continues", facts)
+            cls = (classify("hb0-immediate-disconnect", facts) or classify("unanswered-probe-while-traffic-continues", facts)
+                   or classify("unfilled-gap-dropped-unprobed", facts))
             why = ("every TestRequest was answered in time (or still had time)" if L1 else
                    "valid traffic never paused longer than %d s (unanswered: %r)" % (hb, [(p["t"], p["rid"]) for p in late]))
             out.append(("watchdog disconnected the peer at t=%d although %s" % (disc_t, why), cls))
@@ -664,7 +723,16 @@ def kf_raw(f):
     return len(lst) > 1 and all(r[1] == "raw" for r in lst[1:])
 
 
+def kf_unfilled_gap(f):
+    """The watchdog dropped the peer while a ResendRequest was unanswered (state RESENDREQ_AWAITING), every TestRequest
+    had been answered in time (possibly none was ever sent: outside ACTIVE the watchdog does not probe), and the last
+    in-sequence message was more than 2*hb s old."""
+    return (f["hb"] >= 1 and f.get("wd_disc") is not None and f.get("awaiting_at_disc") is True
+            and f.get("answered_all") is True and f.get("since_last_in_sequence", 0) > 2 * f["hb"] * 1000)
+
+
 CLASSES = {
+    "unfilled-gap-dropped-unprobed": kf_unfilled_gap,
     "unanswered-probe-while-traffic-continues": kf_unanswered_probe,
     "hb0-immediate-disconnect": kf_hb0,
     "raw-testrequest-while-pending": kf_raw,
@@ -732,6 +800,40 @@ def gen_cases(rng, tier_all):
             for mode in ("wrong", "missing", "junk", "lenient", "zero"):
                 add("id-" + mode, hb, ph, 4 * H + 3000, (),
                     {"delay": q(rng.randrange(0, 2 * H)), "mode": mode, "limit": None})
+        # ---- heartbeat protocol behind a sequence gap -------------------------------------------------
+        for ph in ([0] + rng.sample(phases_all[1:], 1) if not tier_all else phases_all[::2]):
+            # the k-th probe answer is numbered one above the expected number (a message was lost before it);
+            # the peer gap-fills later, early, at once, or never
+            for at in (1, 2):
+                for fill in (0, Q, 1000, q(H // 2), 2 * H - 1000, 2 * H + 2000, None):
+                    dl = q(rng.choice([0, Q, H // 2, H, 2 * H - 1000 - Q]))
+                    add("gap-answer", hb, ph, 7 * H + 6000, (),
+                        {"delay": max(dl, 0), "mode": rng.choice(["match", "match", "match", "wrong", "lenient"]),
+                         "limit": None, "gap": {"at": at, "fill_after": fill}})
+            # inbound TestRequests / Heartbeats / application messages behind a gap, then gap fill or re-sends
+            for _ in range(3):
+                t1 = q(rng.randrange(0, 2 * H + 1000))
+                script = [(t1, "lose")]
+                for k in range(rng.randrange(1, 5)):
+                    script.append((t1 + q(rng.randrange(0, H + 1000)), "recv", rng.choice([1, 1, 0, 2]),
+                                   rng.choice([None] + RIDS[:4])))
+                r = rng.random()
+                t2 = t1 + q(rng.randrange(0, 2 * H + 2000))
+                if r < 0.4:
+                    script.append((t2, "fill", None))
+                elif r < 0.6:
+                    script += [(t2, "fill", 1), (t2 + 1000, "fill", None)]
+                elif r < 0.8:
+                    script += [(t2 + 250 * k, "resend", rng.choice([0, 2]), None) for k in range(6)]
+                script.append((t2 + q(rng.randrange(0, H)), "recv", rng.choice([0, 1, 2]), None))
+                add("gap-testreq", hb, ph, 6 * H + 5000, script,
+                    rng.choice([None, {"delay": q(rng.randrange(0, H)), "mode": "match", "limit": None}]))
+            # all traffic behind an unfilled gap: periodic messages, probes (if any) answered
+            per = q(rng.choice([max(Q, H // 3), max(Q, H - 1000), H]))
+            script = [(q(rng.randrange(0, H)), "lose")] + [
+                (per * (k + 1), "recv", rng.choice([0, 2, 1]), None) for k in range(int((4 * H + 3000) // per))]
+            add("gap-all", hb, ph, 4 * H + 3000, script,
+                {"delay": q(rng.randrange(0, H)), "mode": "match", "limit": None})
         # inbound TestRequests with / without 112, unsolicited heartbeats with ids
         for _ in range(2):
             n = rng.randrange(3, 10)
@@ -753,15 +855,21 @@ def gen_cases(rng, tier_all):
             for _ in range(n):
                 t = q(rng.randrange(0, 4 * H + 1000))
                 r = rng.random()
-                if r < 0.8:
+                if r < 0.7:
                     script.append((t, "recv", rng.choice([0, 1, 2, 2]), rng.choice([None, None] + RIDS)))
+                elif r < 0.75:
+                    script.append((t, "lose"))
+                elif r < 0.8:
+                    script.append((t, "fill", rng.choice([None, None, 1, 2])))
                 elif r < 0.9:
                     script.append((t, "probe"))
                 else:
                     script.append((t, "raw", rng.choice(RIDS[:5])))
             pol = rng.choice([None, {"delay": q(rng.randrange(0, 3 * H)),
                                      "mode": rng.choice(["match", "match", "match", "wrong", "missing", "lenient", "junk"]),
-                                     "limit": rng.choice([None, 1, 2])}])
+                                     "limit": rng.choice([None, 1, 2]),
+                                     "gap": rng.choice([None, None, {"at": rng.choice([1, 2]),
+                                                                     "fill_after": rng.choice([None, 0, 1000, q(H)])}])}])
             add("mix", hb, rng.choice(phases_all), 5 * H + 3000, script, pol)
         # watchdog outside ACTIVE (second test): handshake states, with and without a last-message time
         for stt in (6, 7, 8):
@@ -785,6 +893,17 @@ def corpus_cases():
          "script": [[500 * k, "recv", 2, None] for k in range(1, 10)]},
         {"tag": "raw-while-pending", "hb": 5, "phase": 0, "end": 12000, "tie": 1, "init": "logon", "policy": None,
          "script": [[6000, "raw", "X1"], [7000, "probe"]]},
+        # the first probe answer arrives behind a gap (MsgSeqNum + 1), the peer gap-fills 2 s later and keeps answering
+        {"tag": "gap-answer-then-fill", "hb": 30, "phase": 250, "end": 200000, "tie": 1, "init": "logon", "script": [],
+         "policy": {"delay": 1750, "mode": "match", "limit": None, "gap": {"at": 1, "fill_after": 2000}}},
+        # an inbound TestRequest behind a gap must still be answered
+        {"tag": "gap-testreq", "hb": 30, "phase": 250, "end": 40000, "tie": 1, "init": "logon", "policy": None,
+         "script": [[4000, "lose"], [5000, "recv", 1, "TR7"], [6000, "recv", 1, None], [8000, "fill", None],
+                    [9000, "recv", 1, "TR8"]]},
+        # all traffic behind an unfilled gap (Heartbeats every 10 s): never probed, dropped 2 intervals after the last
+        # in-sequence message
+        {"tag": "gap-all-unfilled", "hb": 30, "phase": 250, "end": 70000, "tie": 1, "init": "logon", "policy": None,
+         "script": [[4000, "lose"]] + [[5000 + 10000 * k, "recv", 0, None] for k in range(7)]},
     ]
 
 
